@@ -4,7 +4,7 @@
    booleans export to the documented shape and import back to the same value, also after JSON.
    Composite kinds are tied by the correspondence (exact tagged shape, from_obj, JSON, alternative
    spellings, against the model and the original's root). *)
-Require Import RM.Base RM.Tree RM.Types RM.Spec RM.ModelViews RM.ModelObj RM.CodecBasicProofs.
+Require Import RM.Base RM.Tree RM.Types RM.Spec RM.ModelViews RM.ModelObj RM.CodecBasicProofs RM.ReprProofs RM.ObjProofs.
 Local Open Scope N_scope.
 
 Theorem C16_hex_roundtrip : forall bs, unhex_text (hex_text bs) = Ok bs.
@@ -24,7 +24,31 @@ Theorem C16_bool_roundtrip : forall H src b nd, mk H TBool (VBool b) = Ok nd ->
   to_obj H src TBool nd = Ok (JBool b) /\ from_obj H TBool (JBool b) = Ok nd.
 Proof. exact obj_bool_roundtrip. Qed.
 
+(* the full statement, every type: exporting ANY representation of a value (constructed, decoded or
+   mutated) and importing the object — directly or after a JSON dump / load — yields the freshly
+   constructed backing of that value, hence an equal value with the spec root.  `fields_ok` bounds the
+   number of fields of every container by 10^20 (the model names fields f0, f1, ...; distinctness of
+   names is what the import relies on). *)
+Theorem C16_roundtrip : forall H src t v n n0, wf_ty t = true -> fields_ok t = true -> wf t v = true ->
+  Repr H t v n -> mk H t v = Ok n0 ->
+  exists o, to_obj H src t n = Ok o /\ from_obj H t o = Ok n0 /\ from_obj H t (json_rt o) = Ok n0 /\ root H n0 = htr H t v.
+Proof. exact obj_roundtrip_json. Qed.
+
+(* a JSON dump / load never changes what an object imports to (tuples become lists, nothing else) *)
+Theorem C16_json_invariant : forall H t o, from_obj H t (json_rt o) = from_obj H t o.
+Proof. exact from_obj_json. Qed.
+
+(* non-vacuity *)
+Example C16_nonvacuous :
+  let t := TContainer [TUint 8; TList (TContainer [TBool; TUint 32; TBitlist 9]) 5; TByteVector 33; TUnion true [TBitvector 12; TVector (TUint 2) 3]] in
+  wf_ty t = true /\ fields_ok t = true /\
+  wf t (VCont [VUint 77; VSeq [VCont [VBool true; VUint 513; VBits [true; false; true]]]; VBytes (repeat x01 33);
+               VUnion 2 (Some (VSeq [VUint 1; VUint 2; VUint 65535]))]) = true.
+Proof. vm_compute. repeat split. Qed.
+
 Print Assumptions C16_hex_roundtrip.
+Print Assumptions C16_roundtrip.
+Print Assumptions C16_json_invariant.
 Print Assumptions C16_json_idempotent.
 Print Assumptions C16_uint_roundtrip.
 Print Assumptions C16_bool_roundtrip.
